@@ -194,8 +194,20 @@ class Tr:
         if isinstance(n, ast.UnaryOp) and isinstance(n.op, ast.Not):
             return '(!%s)' % self.b(n.operand)
         if isinstance(n, ast.BoolOp):
+            parts = [self.b(v) for v in n.values]
+            if any('←' in x for x in parts[1:]):
+                # Python evaluates the later operands only when needed; a monadic call there must not run otherwise
+                if len(parts) != 2 or '←' in parts[0]:
+                    raise Unsupported('short-circuit with calls: ' + self.src(n))
+                call = parts[1]
+                if not (call.startswith('(← ') and call.endswith(')') and call.count('←') == 1):
+                    raise Unsupported('short-circuit operand is not a single call: ' + self.src(n))
+                act = call[len('(← '):-1]
+                if isinstance(n.op, ast.Or):
+                    return '(← (if %s then pure true else %s))' % (parts[0], act)
+                return '(← (if %s then %s else pure false))' % (parts[0], act)
             op = ' && ' if isinstance(n.op, ast.And) else ' || '
-            return '(' + op.join(self.b(v) for v in n.values) + ')'
+            return '(' + op.join(parts) + ')'
         if isinstance(n, ast.Compare):
             parts = []
             left = n.left
@@ -408,6 +420,13 @@ class Tr:
             return out
         if isinstance(s, ast.Continue):
             return ['%scontinue' % ind]
+        if isinstance(s, ast.Break):
+            flags = getattr(self, 'loop_flags', [])
+            if not flags:
+                raise Unsupported('break outside a loop')
+            if flags[-1] is not None:
+                return ['%s%s := true' % (ind, flags[-1]), '%sbreak' % ind]
+            return ['%sbreak' % ind]
         if isinstance(s, ast.While):
             if s.orelse:
                 raise Unsupported('while-else')
@@ -416,7 +435,9 @@ class Tr:
                 raise Unsupported('while loop without a bound')
             cond = self.b(s.test)
             out = ['%sfor _ in List.range (%s) do' % (ind, fuel), '%s  if (!%s) then' % (ind, cond), '%s    break' % ind]
+            self.loop_flags = getattr(self, 'loop_flags', []) + [None]
             out += self.block(s.body, ind + '  ')
+            self.loop_flags = self.loop_flags[:-1]
             out += ['%sif %s then' % (ind, cond), '%s  throw PyErr.fuelExhausted' % ind]
             return out
         if isinstance(s, ast.Expr) and isinstance(s.value, ast.Call) and isinstance(s.value.func, ast.Attribute) \
@@ -469,8 +490,15 @@ class Tr:
             self.declared[-1].add(v)
             return ['%slet some %s := (%s).find? (fun %s => %s) | throw PyErr.unboundLocal' % (ind, v, self.e(s.iter), x, cond)]
         if isinstance(s, ast.For):
+            flag = None
+            pre_for = []
             if s.orelse:
-                raise Unsupported('for-else')
+                # for … else: the else block runs when the loop was not left by `break`
+                self.n_flags = getattr(self, 'n_flags', 0) + 1
+                flag = 'broke_%d' % self.n_flags
+                pre_for = ['%slet mut %s := false' % (ind, flag)]
+                self.declared[-1].add(flag)
+            self.loop_flags = getattr(self, 'loop_flags', []) + [flag]
             it = s.iter
             if isinstance(it, ast.Call) and isinstance(it.func, ast.Name) and it.func.id == 'enumerate' and len(it.args) == 1 \
                     and isinstance(s.target, ast.Tuple) and len(s.target.elts) == 2:
@@ -497,7 +525,11 @@ class Tr:
                 raise Unsupported('for ' + self.src(s.target))
             body = self.block(s.body, ind + '  ')
             self.declared.pop()
-            return [head] + body
+            self.loop_flags = self.loop_flags[:-1]
+            post = []
+            if s.orelse:
+                post = ['%sif (!%s) then' % (ind, flag)] + self.block(s.orelse, ind + '  ')
+            return pre_for + [head] + body + post
         raise Unsupported('statement ' + type(s).__name__)
 
     def ret(self, n):
@@ -510,6 +542,25 @@ class Tr:
                 return self.e(n)
             return '(some %s)' % self.e(n)
         return self.e(n)
+
+
+class TrKeyFx(Tr):
+    """a method that edits the classification dictionaries for one key: the writes and deletions are recorded in
+    order in `fx : KeyFx α`, and every `return b` gives `(b, fx)`"""
+
+    def stmt0(self, s, ind):
+        if isinstance(s, ast.Assign) and len(s.targets) == 1 and isinstance(s.targets[0], ast.Subscript) \
+                and self.src(s.targets[0].slice) == 'key' and isinstance(s.targets[0].value, ast.Call) \
+                and self.src(s.targets[0].value.func) == 'self.get_class_dict' and len(s.targets[0].value.args) == 1:
+            return ['%sfx := fx.write %s %s' % (ind, self.atom(s.targets[0].value.args[0]), self.atom(s.value))]
+        if isinstance(s, ast.Delete) and len(s.targets) == 1 and isinstance(s.targets[0], ast.Subscript) \
+                and self.src(s.targets[0].slice) == 'key' and isinstance(s.targets[0].value, ast.Call) \
+                and self.src(s.targets[0].value.func) == 'self.get_class_dict' and len(s.targets[0].value.args) == 1:
+            return ['%sfx := fx.del %s' % (ind, self.atom(s.targets[0].value.args[0]))]
+        return Tr.stmt0(self, s, ind)
+
+    def ret(self, n):
+        return '(%s, fx)' % self.e(n)
 
 
 class TrChkOrder(Tr):
@@ -585,6 +636,15 @@ def pyStepAux {α : Type} (step : Nat) : Nat → List α → List α
 
 def pyStep {α : Type} (values : List α) (start step : Nat) : List α := pyStepAux step 0 (values.drop start)
 
+/-- what a method does to the classification dictionaries for one key, in order: values written under a class, classes the
+    key was deleted from -/
+structure KeyFx (α : Type) where
+  written : List (Cls × List α) := []
+  deleted : List Cls := []
+
+def KeyFx.write {α : Type} (fx : KeyFx α) (c : Cls) (v : List α) : KeyFx α := { fx with written := fx.written ++ [(c, v)] }
+def KeyFx.del {α : Type} (fx : KeyFx α) (c : Cls) : KeyFx α := { fx with deleted := fx.deleted ++ [c] }
+
 /-- `a // b` of naturals: `ZeroDivisionError` for a zero divisor -/
 def pyFloorDiv (a b : Nat) : Except PyErr Nat := if b == 0 then .error PyErr.zeroDivision else .ok (a / b)
 
@@ -598,7 +658,7 @@ def pyIndex {α : Type} (values : List α) (i : Nat) : Except PyErr α :=
 
 GROUP_OF = {
     'get_valid_classes': 'classes', 'get_multiplicity': 'classes',
-    'get_const_period': 'simplify', '_get_const_period': 'simplify', 'is_constant': 'simplify', 'is_repeating': 'simplify',
+    'get_const_period': 'simplify', '_get_const_period': 'simplify', 'is_constant': 'simplify', 'is_repeating': 'simplify', 'simplify': 'simplify',
     'meta_valid': 'lookup', 'get_meta_index': 'lookup',
     'check_valid': 'valid',
     'subset_shape': 'shapes', 'merge_shape': 'shapes',
@@ -646,12 +706,12 @@ def translate():
     dm = ast.parse(open(os.path.join(REPO, 'src', 'dcmstack', 'dcmmeta.py')).read())
     ds = ast.parse(open(os.path.join(REPO, 'src', 'dcmstack', 'dcmstack.py')).read())
 
-    def emit(name, sig, fn_body, tr, doc):
+    def emit(name, sig, fn_body, tr, doc, prologue=()):
         out.cur = group_of(name)
         try:
             tr.mutable = tr.assigned_more_than_once(fn_body)
             tr.declared = []
-            lines = tr.block(fn_body, '  ')
+            lines = ['  ' + l for l in prologue] + tr.block(fn_body, '  ')
             out.append('/-- %s -/' % doc)
             out.append('def %s %s := do' % (name, sig))
             out.extend(lines)
@@ -964,6 +1024,31 @@ def translate():
         if nm == 'is_constant':
             tr.opt_params = {'period'}
         emit(nm, sig, f.body, tr, '`%s` (dcmmeta.py), translated statement by statement' % nm)
+    # ---- _simplify: the whole method for one key, dictionary edits recorded as effects
+    f = find_func(dm, 'DcmMetaExtension', '_simplify')
+    if f is None:
+        missing.append('simplify: not found')
+    else:
+        tr = TrKeyFx({'self.shape': 'self_shape', 'self._const_tests[curr_class]': '(constTests curr_class)',
+                      'self._repeat_tests[curr_class]': '(repeatTests curr_class)',
+                      'curr_class in self._repeat_tests': '(Gen.repeatTestsKeys.contains curr_class)',
+                      'self._content': 'content', 'values is None': '(values == [null])',
+                      'period == 1': '(period == some 1)', 'values[0]': '((values.head?).toList)'},
+                     {'self._get_const_period(curr_class, dest_cls)': 'get_const_period self_shape self_n_slices curr_class dest_cls',
+                      'is_constant(values, period)': 'is_constant values period',
+                      'is_repeating(values, dest_mult)': 'is_repeating values dest_mult',
+                      'self.get_multiplicity(dest_cls)': 'get_multiplicity self_shape self_n_slices dest_cls'},
+                     cls_vars=['curr_class', 'dest_cls'])
+        tr.opt_params = {'period'}
+        tr.list_vars = {'values'}
+        tr.stmt_map = {'values, curr_class = self.get_values_and_class(key)': []}
+        emit('simplify', '{α : Type} [DecidableEq α] (null : α) (self_shape : List Nat) (self_n_slices : Option Nat) (content : List String) '
+             '(values : List α) (curr_class : Cls) : Except PyErr (Bool × KeyFx α)', f.body, tr,
+             '`DcmMetaExtension._simplify` (dcmmeta.py) for one key, translated statement by statement: `get_values_and_class(key)` is the '
+             'parameters `values` / `curr_class` (a constant is a one-element list, `null` stands for None), `self._content` the list of '
+             'base names present; writes `get_class_dict(c)[key] = v` and `del get_class_dict(c)[key]` are recorded in order in the '
+             'returned `KeyFx`, next to the Boolean the method returns',
+             prologue=['let mut fx : KeyFx α := {}'])
     # ---- get_meta: the `if not index is None:` block and the final return
     f = find_func(dm, 'NiftiWrapper', 'get_meta')
     blk = None
